@@ -725,6 +725,16 @@ def c09(res):
     res.evaluations = n
     res.samples = sample_lines(trace, maxlen=3000)
     res.add_rejects(trace, rej, lambda r, f: "kind=%s backend=%s threads=%s cancel_after=%s fails=%s" % (r.get("kind", r.get("ev")), r.get("backend"), r.get("threads"), r.get("cancel_after"), "+".join(sorted(f))))
+    # the multi-threaded octree build: local octrees, splits and the merged octree dumped by the mt_* hooks, judged with
+    # the operators of OctreeMerge.tla (Trace_OctreeMerge.tla)
+    mtrace = os.path.join(wd, "octmerge.ndjson")
+    if not run_recorder(res, "octmerge", [res.tier, mtrace], wd, timeout=3000):
+        return res.finish("recorder crashed")
+    n2, rej2 = validate("Trace_OctreeMerge", mtrace, wd, timeout=3000, heap="6g")
+    res.validated += n2 - len(rej2)
+    res.evaluations += n2
+    res.extra["octree_merges"] = n2
+    res.add_rejects(mtrace, rej2, lambda r, f: "octree-merge shape=%s depth=%s threads=%s status=%s fails=%s" % (r.get("desc"), r.get("depth"), r.get("threads"), r.get("status"), "+".join(sorted(f))))
     res.assumptions = ["interleavings are perturbed through the schedule-point hook, not enumerated; the verdict never depends on timing",
                        "the cancel token is set from inside the poll hook after exactly k polls"]
     return res.finish("2D renders, voxel renders and meshes of random CSG with no pool, the global pool and custom pools of 1..16 threads; "
@@ -963,6 +973,13 @@ def replay(prop, path):
             return 1
         print("replay accepted")
         return 0
+    if '"tasks":' in open(path).readline() and prop == "C09":    # octree merge dump (Trace_OctreeMerge.tla)
+        n, rej = validate("Trace_OctreeMerge", os.path.abspath(path), workdir(prop))
+        if rej:
+            print("VIOLATION property=%s replay=%s  # %s" % (prop, path, rej))
+            return 1
+        print("replay accepted")
+        return 0
     if '"cfg":"TS_' in open(path).readline():                  # tile-decision trace (Trace_Tiles2.tla / Trace_Tiles3.tla)
         class R: pass
         r = R(); r.prop, r.tier, r.seed, r.violations = prop, "replay", 0, []
@@ -1140,5 +1157,31 @@ def selftest():
             log("selftest %s %s: drift=%d unsound=%d rejected=%s -> %s" % (module, kind, nd, un, rej, "ok" if good else "BINDING NOT DEMONSTRATED"))
             if not good:
                 bad += 1
+    # octree-merge dumps (Trace_OctreeMerge): a shifted leaf, a placeholder and a branch index out of range in the merged octree
+    ensure("C09")
+    src = os.path.join(workdir("C09"), "octmerge.ndjson")
+    if os.path.exists(src):
+        recs = [json.loads(x) for x in open(src)]
+        base = next((r for r in recs if r["status"] == "ok" and len(r["groups"]) > len(r["fix"]) and any(c[0] == "L" for c in r["groups"][len(r["fix"])])), None)
+        if base is not None:
+            g = len(base["fix"])
+            def shift(r):
+                c = next(c for c in r["groups"][g] if c[0] == "L"); c[1] += 1
+            def hole(r):
+                r["groups"][g][0] = ["I", 0, 0]
+            def wild(r):
+                c = next(c for grp in r["groups"] for c in grp if c[0] == "B"); c[1] = 99999
+            for mut, clause in ((shift, "task-subtree-differs"), (hole, "placeholder-left"), (wild, "index-out-of-bounds")):
+                m = copy.deepcopy(base)
+                mut(m)
+                bf = os.path.join(workdir("C09"), "selftest_om_bad.ndjson")
+                with open(bf, "w") as f:
+                    f.write(json.dumps(base) + "\n" + json.dumps(dict(m, id=base["id"] + 100000)) + "\n")
+                _, rej = validate("Trace_OctreeMerge", bf, workdir("C09"))
+                good = base["id"] not in rej and clause in rej.get(base["id"] + 100000, [])
+                done += 1
+                log("selftest Trace_OctreeMerge %s: %s -> %s" % (mut.__name__, rej, "ok" if good else "BINDING NOT DEMONSTRATED"))
+                if not good:
+                    bad += 1
     log("selftest: %d corruptions tried, %d not rejected as expected" % (done, bad))
     return 2 if bad else 0
